@@ -244,7 +244,7 @@ func runCheck(eng *Eng, id, tier string, replay, keep bool, only string) int {
 		var f []*Obligation
 		for _, o := range allObls {
 			switch o.Kind {
-			case "guarded", "lock", "frozen", "nil", "bounds", "div0", "typeassert", "nilcall", "dyntype", "closeclosed", "monitor", "chan":
+			case "guarded", "lock", "frozen", "nil", "bounds", "div0", "typeassert", "nilcall", "dyntype", "closeclosed", "monitor", "chan", "confine":
 				f = append(f, o)
 			default:
 				if strings.HasPrefix(o.Label, "C14") {
